@@ -14,7 +14,8 @@ RULE = ("G1: 0.0005-degree grid over [-90,90]; N1: every float within +-64 ulp a
         "transition latitudes (both signs), 0, +-87, +-90; thorough N2: every latitude a CPR decoder can construct "
         "(d*(j+yz/2^17) for the four zone sizes, all zone indices, all 2^17 yz); distinct = distinct latitudes; "
         "non-trivial = latitude within 1e-3 deg of a breakpoint")
-ASSUMPTIONS = ["transition latitudes from the closed form; within 1e-9 deg of a transition either neighbouring NL is "
+ASSUMPTIONS = ["re-entrancy: a decoder call suspended at a source-line boundary while another call runs to completion (one preemption, engine/interleave.py) must still give its isolated answer - the properties are read as covering calls made from several threads",
+               "transition latitudes from the closed form; within 1e-9 deg of a transition either neighbouring NL is "
                "accepted, as the property allows", "between enumerated points nothing is claimed (real-valued domain)"]
 
 CONFIGS = [c for c in os.environ.get("VERIF_CONFIGS", "P,C").split(",") if c]
